@@ -95,7 +95,7 @@ URL_SKELS = [
     ("default-port-ftp", ["ftp://h:21/", NS]), ("port-0", ["http://h:0/", NS]),
     ("ipv6", ["http://[::1]:8/", NS, "?", NS]), ("ipv6-zone", ["http://[fe80::1%25e", ("in", "tT0.-"), "h0]/p"]), ("ipv4-upper", ["HTTP://1.2.3.4/", NS]),
     ("host-case", ["hTTp://EXAMPLE.c", ("in", "oO0-"), "m:80/", NS]), ("regname", ["http://g", ("in", "aZ-._~!$&'()*+,;=%"), ("in", "aZ4-._~"), ("in", "bF1"), "c/"]),
-    ("netpath", ["//h/", NS, NS]), ("rooted", ["/a", NS, NS, NS]), ("scheme-rootless", ["http:", NS, NS]), ("other-scheme-rootless", ["x:", NS, NS]),
+    ("escaped-colon-first-segment", [("in", "Na1."), "%3", ("in", "Aa9"), NS]), ("netpath", ["//h/", NS, NS]), ("rooted", ["/a", NS, NS, NS]), ("scheme-rootless", ["http:", NS, NS]), ("other-scheme-rootless", ["x:", NS, NS]),
     ("other-scheme-slashes", ["foo:////", NS]), ("slashes", ["////", NS]), ("triple-slash", ["http:///", NS]), ("empty-auth-q", ["x://?", NS]),
 ]
 
